@@ -58,6 +58,8 @@ REQUIRED_CLASSES = (['Nasa', 'Nasa9', 'Shomate', 'style:arbitrary', 'style:reali
                     + ['%s:%s:%s' % (p, w, d) for p in ('out', 'out_arr') for w in ('below', 'above')
                        for d in ('1ulp', 'rel1e-12', 'rel1e-9', 'rel1e-6', 'abs1e-5', 'far')]
                     + ['out:gap:1ulp', 'out_arr:gap:1ulp']
+                    + ['dtype:%s:%s' % (d, k) for d in ('int16', 'uint16', 'int32', 'uint32', 'int64', 'float32')
+                       for k in ('Nasa', 'Nasa9', 'Shomate')]
                     + ['units:%s' % u for u in UNITS_DOC]
                     + ['alen:%d' % n for n in range(1, 51)])
 # branches (get_a:low/high/T==T_mid, _get_nasa:T==T_low/T==T_high/interior) are recorded by the probes as
@@ -88,12 +90,17 @@ ASSUMPTIONS = [
     "a getter that changes the contents of the caller's temperature container is counted as an E5 violation "
     "(what=input_modified): the next evaluation of that container would no longer be the requested one",
     "dimensional getters (get_Cp/H/S/G with units) and the S_elements option are not driven here (C04)",
+    "temperature dtypes int16/uint16/int32/uint32/int64/float32 (numpy scalars and ndarray elements) must give "
+    "the double precision evaluation of the same numeric value (E1/E5 tolerances); exception: Shomate with "
+    "float32 T computes t = T/1000 and its powers in single precision, so there only 1e-4 (observed <= 5e-7) "
+    "against the double evaluation and exact array == same-dtype scalar agreement are demanded",
 ]
 
 TOL_E1 = 1e-12
 TOL_E3 = 1e-12
 TOL_E5 = 1e-13
 TOL_E2 = 1e-9
+TOL_F32 = 1e-4        # Shomate with float32 T only (single precision arithmetic inside; observed <= 5e-7)
 CANCEL = 2e-13
 QS = ('CpoR', 'HoRT', 'SoR', 'GoRT')
 
@@ -224,6 +231,41 @@ def _make_history(rng, sp, kind=None, n=None, ops=None):
             steps.append(['assign', new])
         cur = list(new)
     return {'kind': kind, 'T0': T0, 'steps': steps}
+
+
+DTYPES = ('int16', 'uint16', 'int32', 'uint32', 'int64', 'float32')
+
+
+def _f32(v):
+    """the double that equals v rounded to single precision"""
+    import struct
+    return struct.unpack('f', struct.pack('f', v))[0]
+
+
+def _make_dtype(rng, sp, dt):
+    """{'dtype', 'T': [...], 'ival': [T1, T2]}: in-range temperatures representable in dt (integers
+    for the integer types -- all <= 6000 < 32767 --, float32-exact values one kelvin inside a segment
+    for float32) and, for the integer types, two integer end points strictly inside one segment"""
+    segs = _segments(sp)
+    n = rng.randint(3, 7)
+    if dt == 'float32':
+        T = []
+        for _ in range(n):
+            lo, hi = rng.choice(segs)
+            T.append(_f32(round(rng.uniform(lo + 1.0, hi - 1.0), 2)))
+        return {'dtype': dt, 'T': T}
+    T = [_rand_int_T(rng, sp) for _ in range(n)]
+    ib = [int(b) for b, _ in _breaks(sp) if float(b).is_integer()]
+    for b in ib[:2]:
+        T[rng.randrange(n)] = b
+    T[rng.randrange(n)] = math.floor(segs[-1][1])             # largest powers
+    lo, hi = rng.choice(segs)
+    T1 = rng.randint(math.ceil(lo) + 1, math.floor(hi) - 2)
+    T2 = min(math.floor(hi) - 1, T1 + rng.randint(1, 150))
+    ent = {'dtype': dt, 'T': T}
+    if T2 > T1:
+        ent['ival'] = [T1, T2]
+    return ent
 
 
 def _make_alternation(rng, sp):
@@ -366,7 +408,7 @@ _R_SI = {'J/mol/K': 8.3144598, 'kJ/mol/K': 8.3144598e-3, 'cal/mol/K': 1.9872036,
          'm3 bar/mol/K': 8.3144598e-5, 'inch3 psi/mol/K': 73.59}
 
 
-def _case(rng, sp, style, n_T=3, arrays=None, n_ivals=2, n_int=2, hist=None):
+def _case(rng, sp, style, n_T=3, arrays=None, n_ivals=2, n_int=2, hist=None, dtypes=None):
     Ts = [_rand_T(rng, sp) for _ in range(n_T)]
     for lo, hi in _segments(sp):                     # at least one interior point per segment
         Ts.append(_rand_in(rng, lo, hi))
@@ -391,6 +433,7 @@ def _case(rng, sp, style, n_T=3, arrays=None, n_ivals=2, n_int=2, hist=None):
         case['out_arrays'] = oa
     case['hist'] = hist if hist is not None else [_make_history(rng, sp) for _ in range(rng.randint(1, 2))]
     case['alt'] = _make_alternation(rng, sp)
+    case['dt'] = [_make_dtype(rng, sp, d) for d in (dtypes or rng.sample(DTYPES, 2))]
     return case
 
 
@@ -433,6 +476,10 @@ def directed(tier):
         hs = [_make_history(rng, sp, kind=k, n=6, ops=['shift', 'move', 'reverse', 'assign', 'move', 'shift'])
               for k in ('list', 'ndarray')]
         D.append(_case(rng, dict(sp), 'arbitrary', hist=hs))
+    # every narrow / unsigned integer and single precision temperature dtype for every class
+    sh_wide = dict(sh, T_high=5500.0)
+    for sp in (n7, n9, sh_wide):
+        D.append(_case(rng, dict(sp), 'arbitrary', dtypes=DTYPES))
     # NASA-9: 1-4 segments, contiguous and with a gap
     for nseg in (1, 2, 3, 4):
         for gap in (False, True):
@@ -773,9 +820,20 @@ class _Drv:
                 self.sc.pop((q, 'float', x), None)
             self.e1_scalar(x, where='between_arrays')
 
-    def e2_interval(self, T1, T2):
+    def _typed(self, q, T, typ, dt, oracle):
+        """real scalar getter at the numpy-typed scalar typ(T) -> float | None"""
+        mech = {'class': self.cname, 'q': q, 'tkind': 'npscalar', 'dtype': dt}
+        r = self.ctx.call(oracle, mech, getattr(self.obj, 'get_' + q), T=typ(T))
+        if r is core.NOVALUE:
+            return None
+        arr = _values(self.ctx, oracle, mech, r, 1)
+        return None if arr is None else float(arr[0])
+
+    def e2_interval(self, T1, T2, typ=None, dt=None):
+        """integral forms on [T1, T2]; with typ/dt the end-point H and S are requested at the
+        numpy-typed scalars typ(T1), typ(T2) (integer grids)"""
         ctx = self.ctx
-        mech = {'class': self.cname}
+        mech = {'class': self.cname} if dt is None else {'class': self.cname, 'dtype': dt}
         cache = {}
 
         class Abort(Exception):
@@ -794,8 +852,12 @@ class _Drv:
             Is, es = quad.integrate(lambda x: cp(x) / x, T1, T2)
         except Abort:
             return
-        H1, H2 = self.scalar('HoRT', T1, 'E2'), self.scalar('HoRT', T2, 'E2')
-        S1, S2 = self.scalar('SoR', T1, 'E2'), self.scalar('SoR', T2, 'E2')
+        if typ is None:
+            H1, H2 = self.scalar('HoRT', T1, 'E2'), self.scalar('HoRT', T2, 'E2')
+            S1, S2 = self.scalar('SoR', T1, 'E2'), self.scalar('SoR', T2, 'E2')
+        else:
+            H1, H2 = self._typed('HoRT', T1, typ, dt, 'E2'), self._typed('HoRT', T2, typ, dt, 'E2')
+            S1, S2 = self._typed('SoR', T1, typ, dt, 'E2'), self._typed('SoR', T2, typ, dt, 'E2')
         r1, r2 = self.model.ref(T1)[0], self.model.ref(T2)[0]
         if H1 is not None and H2 is not None:
             scale = max(1.0, abs(Ih)) + (CANCEL / TOL_E2) * (T1 * r1['HoRT'][1] + T2 * r2['HoRT'][1])
@@ -811,6 +873,98 @@ class _Drv:
             else:
                 ctx.close('E2', S2 - S1, Is, TOL_E2, dict(mech, rel='dS/dT=Cp/T'), scale=scale,
                           T1=T1, T2=T2, quad_err=es)
+
+    def _close(self, loose, oracle, got, want, tol, mech, scale, **detail):
+        """ctx.close, but a single precision comparison keeps its own maximum-error record
+        ('<oracle>:Shomate-float32') so that the audit trail of the tight tolerances stays clean"""
+        ctx = self.ctx
+        if not loose:
+            return ctx.close(oracle, got, want, tol, mech, scale=scale, **detail)
+        e = ctx.err(got, want, scale)
+        key = oracle + ':Shomate-float32'
+        if e <= tol and e > ctx.max_err.get(key, 0.0):
+            ctx.max_err[key] = e
+        return ctx.check(oracle, e <= tol, mech, got=got, want=want, err=e, tol=tol, **detail)
+
+    def dtype_stratum(self, ent):
+        """temperatures typed as a narrow / unsigned integer or single precision float, as numpy
+        scalars and as ndarray elements: E1 + E3 at the typed scalar, E5 (array element equals the
+        scalar float evaluation of the same numeric value) + E3 on the typed array, E2 between two
+        typed integer end points, the NASA-7 helpers at the typed scalar."""
+        import numpy as np
+        ctx = self.ctx
+        dt = ent['dtype']
+        typ = np.dtype(dt).type
+        vals = list(ent['T'])
+        # Shomate evaluates a float32 temperature in single precision (t = T/1000 and its powers stay
+        # float32): only single precision agreement with the double evaluation can be demanded there
+        loose = dt == 'float32' and self.cname == 'Shomate'
+        tol1, tol5 = (TOL_F32, TOL_F32) if loose else (TOL_E1, TOL_E5)
+        typed = {}
+        for v in vals[:4]:
+            x = float(typ(v))
+            refs = self.model.ref(x)
+            got = {}
+            for q in QS:
+                g = self._typed(q, v, typ, dt, 'E1')
+                got[q] = g
+                if g is None:
+                    continue
+                best = min(refs, key=lambda r: abs(g - r[q][0]) / r[q][1])
+                self._close(loose, 'E1', g, best[q][0], tol1, {'class': self.cname, 'q': q, 'tkind': 'npscalar',
+                                                               'dtype': dt}, scale=best[q][1], T=x)
+            typed[x] = got
+            if None not in got.values():
+                ctx.close('E3', got['GoRT'], got['HoRT'] - got['SoR'], TOL_E3,
+                          {'class': self.cname, 'tkind': 'npscalar', 'dtype': dt}, scale=refs[0]['GoRT'][1], T=x)
+        arr = np.array(vals, dtype=dt)
+        xs = [float(x) for x in arr]
+        res = {}
+        for q in QS:
+            mech = {'class': self.cname, 'q': q, 'tkind': 'ndarray', 'elem': dt}
+            r = ctx.call('E5', mech, getattr(self.obj, 'get_' + q), T=arr)
+            if r is core.NOVALUE:
+                continue
+            out = _values(ctx, 'E5', mech, r, len(xs))
+            if out is None:
+                continue
+            res[q] = out
+            want, scale = [], []
+            for x in xs:
+                w = self.scalar(q, x, 'E1')
+                if w is None:
+                    break
+                want.append(w)
+                scale.append(self.model.ref(x)[0][q][1])
+            else:
+                self._close(loose, 'E5', out, want, tol5, mech, scale=np.array(scale), T=xs, dtype=dt)
+            if loose:                       # array element == scalar evaluation of the same typed value
+                pairs = [(out[i], typed[x][q], self.model.ref(x)[0][q][1]) for i, x in enumerate(xs)
+                         if x in typed and typed[x].get(q) is not None]
+                if pairs:
+                    ctx.close('E5', [a for a, _, _ in pairs], [b for _, b, _ in pairs], TOL_E5,
+                              dict(mech, what='same_dtype_scalar'), scale=np.array([c for _, _, c in pairs]), T=xs)
+        if all(q in res for q in ('GoRT', 'HoRT', 'SoR')):
+            scale = np.array([self.model.ref(x)[0]['GoRT'][1] for x in xs])
+            ctx.close('E3', res['GoRT'], res['HoRT'] - res['SoR'], TOL_E3,
+                      {'class': self.cname, 'tkind': 'ndarray', 'elem': dt}, scale=scale, T=xs)
+        if ent.get('ival'):
+            T1, T2 = ent['ival']
+            self.e2_interval(float(T1), float(T2), typ=typ, dt=dt)
+        if self.cname == 'Nasa' and dt != 'float32':
+            import pmutt.empirical.nasa as m
+            for v in vals[:2]:
+                x = float(typ(v))
+                (seg, a), ref = self.model.candidates(x)[0], self.model.ref(x)[0]
+                for q in ('CpoR', 'HoRT', 'SoR'):
+                    fn = 'get_nasa_' + q
+                    mech = {'class': 'helper', 'fn': fn, 'dtype': dt}
+                    r = ctx.call('E1', mech, getattr(m, fn), a=np.array(a, dtype=float), T=typ(v))
+                    if r is core.NOVALUE:
+                        continue
+                    out = _values(ctx, 'E1', mech, r, 1)
+                    if out is not None:
+                        ctx.close('E1', float(out[0]), ref[q][0], TOL_E1, mech, scale=ref[q][1], T=x, segment=seg)
 
     def _cp_fast(self, x):
         """real scalar Cp getter at a quadrature node (not cached across the case)"""
@@ -994,6 +1148,11 @@ def run_case(spec, ctx):
         drv.history(h)
     if spec.get('alt'):
         drv.alternation(spec['alt'])
+
+    # ---- temperature dtypes (narrow / unsigned integers, float32) as numpy scalars and ndarray elements
+    for ent in spec.get('dt', []):
+        ctx.cls('dtype:%s:%s' % (ent['dtype'], kind))
+        drv.dtype_stratum(ent)
 
     # ---- integral forms: E2
     for T1, T2, tag in spec['ivals']:
